@@ -32,7 +32,7 @@ CHECKS = {
 RUNTB = TB + ("ideal-digest assumption discharged by C04; task commands replaced by a recording runner; map-iteration "
               "nondeterminism inside one invocation sampled by repetition. ")
 RUNTECH = ("exhaustive exploration of the REAL state space of small projects (byte-exact directory snapshots, every edit/run/force/failure "
-           "action from every state) judged by TLC as graph x ghost-history product (SpokRunTrace); protocol model SpokRun.tla model-checked "
+           "action from every state; failures are a non-zero exit status or a command the runner cannot run at all) judged by TLC as graph x ghost-history product (SpokRunTrace); protocol model SpokRun.tla model-checked "
            "against the same clauses; TLC -simulate histories replayed into the code and trace-validated against the protocol model")
 for _pid, _txt in (
     ("C01", "never a skip unless the inputs equal those of the last success"),
@@ -54,7 +54,7 @@ CHECKS["C03"] = ("TaskGraph", "TLC model check of the closure + Kahn model over 
                  "dependency function incl. self loops and cycles, every request list up to length 2): once-each, dependencies-first in every state, "
                  "error-iff-anomaly, error-runs-nothing, termination. The real SpokFile.Run is executed on every dependency function over 3 (quick) / "
                  "4 (thorough) names x request lists, plus duplicate/missing definitions, failing commands, warm-cache second runs and sampled "
-                 "5-8 task graphs, each repeated so the map order inside the sort varies; TLC evaluates Allowed_C03 on every record.",
+                 "5-8 task graphs, dependencies listed twice, global variables named like tasks, each repeated so the map order inside the sort varies; TLC evaluates Allowed_C03 on every record.",
                  TB + "map-iteration order sampled by repetition; commands replaced by a recording runner.", "5 C03")
 
 CHECKS["C05"] = ("Glob", "declarative glob semantics in TLA+ (model-checked frame properties) used as oracle: TLC evaluates Conforms_C05 over the real "
@@ -82,9 +82,11 @@ SYNTECH = ("input spaces generated from TLA+ models (SpokSyntax generative gramm
 for _pid, _txt in (
     ("C06", "AstEq_C06: the parse tree equals the structure the text was written from, for every structure x layout"),
     ("C16", "Tiles_C16: token values are the input slices at their offsets, non-overlapping, only white space between, exact line numbers, finite, EOF at the end"),
-    ("C08", "Total_C08: no panic / hang / crash, a second parse gives the identical result, every error cites a line within the input and quotes it"),
+    ("C08", "Total_C08: no panic / hang / crash, a second parse gives the identical result, every error cites a line within the input and quotes it "
+            "(also after lines longer than 64 KiB)"),
     ("C07", "SemEq_C07: the formatted text parses and defines the same variables and tasks in the same order; FmtOnDisk_C07: after `spok --fmt` (the "
-            "binary, as nobody) the file on disk holds exactly the formatter's text, and is untouched when spok refuses"),
+            "binary, as nobody; sample of generated inputs plus hand-written complete programs) the file on disk holds exactly the formatter's text, "
+            "and is untouched when spok refuses"),
     ("C11", "Idem_C11: formatting the formatted text returns it byte for byte"),
     ("C15", "Kept_C15: the sequence of non-empty comments, assignments and tasks-with-docstring is unchanged by formatting")):
     CHECKS[_pid] = ("SpokSyntax", SYNTECH,
@@ -100,7 +102,7 @@ CLITB = TB + ("the built binary run as uid nobody in a sandbox HOME with a scrub
 CLITECH = ("abstract CLI transition system in TLA+ (SpokCLI.tla) model-checked for its frame facts and used to enumerate scenarios; the built binary run "
            "on every scenario in a sandbox; TLC evaluates the Conforms relation on recorded before/after tree snapshots, outputs and side-effect logs")
 for _pid, _txt in (
-    ("C09", "Conforms_C09: an executed failing command makes the invocation exit non-zero and name a failing task under plain/--quiet/--json/--force, and the failed "
+    ("C09", "Conforms_C09: an executed failing command (exit status, failing utility, missing program, child killed by a signal, subshell) makes the invocation exit non-zero and name a failing task under plain/--quiet/--json/--force, and the failed "
             "task executes again in a later run; the history clause Inv_C09b is also checked on the exhaustively explored real state graph of the run family"),
     ("C12", "Conforms_C12: without a clean task exactly the designated outputs (literal, named, glob) and the cache directory disappear and nothing else changes; the "
             "spokfile, its directory and every ancestor survive whatever the outputs evaluate to; with a clean task only that task runs"),
@@ -109,7 +111,8 @@ for _pid, _txt in (
     ("C19", "Conforms_C19: every changed path is allowed by MayWrite(action, state) -- the cache directory, the spokfile under --fmt when it parses and loads, a new "
             "spokfile and an appended .gitignore under --init -- for every TLC-enumerated (spokfile kind x flag set x cwd x .gitignore x .env x cache) scenario, "
             "the effective action being selected by the dispatch precedence of the abstract machine"),
-    ("C20", "Conforms_C20: the --json document lists exactly the run's tasks in execution order with skipped flags and per-command text/stdout/stderr/status, --quiet "
+    ("C20", "Conforms_C20: the --json document lists exactly the run's tasks in execution order with skipped flags (only a task with a file dependency, and never in a first or forced run) and per-command text/stdout/stderr/status "
+            "(outputs with and without final newline, stderr only, several lines, none), --quiet "
             "prints nothing, --show lists every task once sorted with its docstring, --vars every variable with its value, no arguments runs default or lists")):
     CHECKS[_pid] = ("SpokCLI", CLITECH, "SpokCLI.tla's abstract machine is model-checked (FmtOnlyWhenValid, CacheOnlyByRuns, ReadOnlyActions); scenarios are built as real "
                     "project trees and the built binary is run on each as an unprivileged user. TLC evaluates " + _txt + ".", CLITB, "5 " + _pid)
